@@ -23,6 +23,7 @@ type MicroSpec struct {
 	Eph   bool     `json:"eph"`   // ephemeral topic and channel
 	MemQ  int64    `json:"memq"`
 	Ops   []string `json:"ops"`
+	Unbuf bool     `json:"unbuf,omitempty"` // consumers negotiate output_buffer_size -1
 	Trace bool     `json:"trace,omitempty"`
 }
 
@@ -30,6 +31,9 @@ func (s MicroSpec) String() string {
 	e := "dur"
 	if s.Eph {
 		e = "eph"
+	}
+	if s.Unbuf {
+		e += "/unbuf"
 	}
 	return fmt.Sprintf("%s/%s/memq%d/%s", s.State, e, s.MemQ, strings.Join(s.Ops, "|"))
 }
@@ -51,6 +55,8 @@ type microCtx struct {
 	touchBy   map[string]string  // id -> connection whose TOUCH was accepted
 	reqOK     map[string]int     // id -> accepted REQs
 	anomalies []string           // internal-structure diagnostics (not violations)
+	exited    bool               // the scenario shut the daemon down (C05)
+	afterRst  map[string][]int   // body -> attempts of the deliveries after the restart
 	sendsPre  uint64         // sum of the consumers' message_count before the window
 	sendsWin  uint64         // sends performed while the window was open
 	preWin    map[string]int // deliveries per id before the window opened
@@ -244,6 +250,18 @@ var microOps = map[string]func(x *microCtx) string{
 		code, _ := x.w.Do("POST", "/pub?topic="+x.topic, b("m3"))
 		return fmt.Sprint(code)
 	},
+	"rdydisc1": func(x *microCtx) string {
+		// the client raises RDY and then drops the connection abruptly
+		x.c1.Cmd("RDY 2", nil)
+		x.c1.Close()
+		return "closed"
+	},
+	"exit": func(x *microCtx) string {
+		x.w.N.Exit()
+		x.w.exited = true
+		x.exited = true
+		return "exited"
+	},
 	"disc1": func(x *microCtx) string {
 		x.c1.Close()
 		return "closed"
@@ -305,6 +323,9 @@ func (x *microCtx) setup() string {
 	x.c1, x.c2 = w.Dial("c1"), w.Dial("c2")
 	x.conns = []*WConn{x.c1, x.c2}
 	for _, c := range x.conns {
+		if spec.Unbuf {
+			c.Identify(map[string]interface{}{"client_id": c.Name, "output_buffer_size": -1})
+		}
 		c.Cmd("SUB "+x.topic+" "+x.ch, nil)
 		if f, ok := c.Next(); !ok || string(f.Data) != "OK" {
 			return "sub failed: " + f.String()
@@ -431,6 +452,11 @@ func RunMicro(spec MicroSpec) vx.Out {
 	}
 
 	obs := strings.Join(results, " ")
+	if x.exited {
+		x.afterRestart()
+		obs += " | after restart " + fmt.Sprint(x.afterRst)
+		return vx.Out{Obs: obs, Viol: x.viol}
+	}
 	// ---- state right after the window
 	if c := x.chanObj(); c != nil && !x.deleted && !x.tdeleted {
 		d := DumpChannel(c)
@@ -557,9 +583,15 @@ func (x *microCtx) oracle() {
 		return false
 	}
 	// (c) attempts: successive deliveries of one id count 1,2,3...
+	strict := true
+	for _, o := range spec.Ops {
+		if strings.Contains(o, "disc") {
+			strict = false // sends to a connection that was dropped are never seen
+		}
+	}
 	for id, as := range x.deliv {
 		for i, a := range as {
-			if a != i+1 {
+			if (strict && a != i+1) || (!strict && (a < i+1 || (i > 0 && a <= as[i-1]))) {
 				x.bad("C02 attempts not consecutive", "message %s deliveries carried attempts %v (to %v)", id, as, x.delivTo[id])
 				break
 			}
@@ -727,4 +759,71 @@ func (x *microCtx) m2ID() string {
 		}
 	}
 	return ""
+}
+
+// afterRestart: the scenario called Exit inside the window. A new daemon is started on the
+// same data path, drained, and judged (C05): every message acknowledged and unfinished
+// when the shutdown was requested comes back, with its attempts count continuing.
+func (x *microCtx) afterRestart() {
+	old := x.w
+	before := map[string]int{} // body -> attempts seen before the shutdown
+	for id, as := range x.deliv {
+		if b := x.delivBody[id]; b != "" && len(as) > 0 {
+			before[b] = as[len(as)-1]
+		}
+	}
+	for _, c := range old.Conns {
+		c.Poll()
+	}
+	w2, err := NewWorld(old.Dir, WOpts{MemQ: x.spec.MemQ, MaxBytesPerFile: 4096, Verbose: x.spec.Trace})
+	if err != nil {
+		x.bad("C05 C06 restart on the same data path failed", "%v", err)
+		return
+	}
+	x.w = w2
+	x.afterRst = map[string][]int{}
+	w2.Do("POST", "/topic/unpause?topic="+x.topic, nil)
+	w2.Do("POST", "/channel/unpause?topic="+x.topic+"&channel="+x.ch, nil)
+	d := w2.Dial("drain")
+	d.Identify(map[string]interface{}{"client_id": "drain", "output_buffer_size": -1})
+	d.Cmd("SUB "+x.topic+" "+x.ch, nil)
+	w2.Quiesce()
+	d.Cmd("RDY 10", nil)
+	for round := 0; round < 12; round++ {
+		w2.Quiesce()
+		for _, f := range d.Take() {
+			if f.Type == frameTypeMessage {
+				x.afterRst[f.Body] = append(x.afterRst[f.Body], f.Attempts)
+				d.Cmd("FIN "+f.ID, nil)
+			}
+		}
+		w2.Sleep(600 * time.Millisecond)
+	}
+	finished := x.m1 != "" && x.finOK[x.m1]
+	for _, body := range []string{"m1", "m2"} {
+		if x.spec.State == "none" {
+			break
+		}
+		got := x.afterRst[body]
+		if body == "m1" && finished {
+			continue // a FIN overlapping the shutdown may go either way
+		}
+		if len(got) == 0 {
+			// a send whose frame never appeared: a delivery pump had taken a message off the
+			// queue when the shutdown hit (the window nsqd's own comments acknowledge)
+			seenWin := 0
+			for k, as := range x.deliv {
+				seenWin += len(as) - x.preWin[k]
+			}
+			if int(x.totalSends()-x.sendsPre) > seenWin {
+				x.bad("C05 message in the hands of a delivery pump lost by a graceful shutdown", "%s (attempts before the shutdown: %d) was taken off the queue by a consumer's pump while Exit was flushing the channel and was not delivered after the restart; delivered: %v", body, before[body], x.afterRst)
+				continue
+			}
+			x.bad("C05 unfinished message lost by a graceful shutdown", "%s (attempts before the shutdown: %d) was not delivered after the restart; delivered: %v", body, before[body], x.afterRst)
+			continue
+		}
+		if got[0] < before[body]+1 {
+			x.bad("C05 attempts count did not continue across the restart", "%s: attempts %d before the shutdown, %d on the first delivery after the restart", body, before[body], got[0])
+		}
+	}
 }
